@@ -387,7 +387,7 @@ def bin_correspond(case, obs, vre, vim):
 def check_bin(ctx: Ctx):
     r = ctx.rng
     cases = [dict(c) for c in _corpus().get("bin", [])]
-    for _ in range(ctx.budget(150, 2500)):
+    for _ in range(ctx.budget(110, 2500)):
         cases.append(gen_bin_case(r, ctx.quick))
     obs_all, exprs, owners, failed = [], [], [], {}
     for ci, case in enumerate(cases):
@@ -411,7 +411,7 @@ def check_bin(ctx: Ctx):
         if case["data8_im"] is not None:
             exprs.append(bin_expr(case, "im"))
             owners.append((ci, "im"))
-    vals = coq_vals(ctx, "bin", PRE_Q, exprs, 20)
+    vals = coq_vals(ctx, "bin", PRE_Q, exprs, 12 if ctx.quick else 40)
     by = {}
     for (ci, part), v in zip(owners, vals):
         by.setdefault(ci, {})[part] = v
@@ -593,7 +593,7 @@ def crop_impl(case):
 def check_padcrop(ctx: Ctx):
     r = ctx.rng
     cases = [dict(c) for c in _corpus().get("pad", [])]
-    for _ in range(ctx.budget(110, 1800)):
+    for _ in range(ctx.budget(80, 1800)):
         cases.append(gen_pad_case(r))
     obs_all, exprs, owners, failed = [], [], [], {}
     for ci, case in enumerate(cases):
@@ -612,7 +612,7 @@ def check_padcrop(ctx: Ctx):
         for part in (["re", "im"] if case["data8_im"] is not None else ["re"]):
             exprs.append(pad_expr(case, part))
             owners.append((ci, part))
-    vals = coq_vals(ctx, "pad", PRE_Q, exprs, 20)
+    vals = coq_vals(ctx, "pad", PRE_Q, exprs, 10 if ctx.quick else 40)
     nd = 0
     for (ci, part), v in zip(owners, vals):
         ctx.cov["traces_validated_against_impl"] += 1
@@ -623,7 +623,7 @@ def check_padcrop(ctx: Ctx):
                           found_input=failed[ci])
     # general crops: correspondence of the slicing model only (the property speaks of crop only through the
     # pad round trip)
-    ccases = [gen_crop_case(r) for _ in range(ctx.budget(50, 800))]
+    ccases = [gen_crop_case(r) for _ in range(ctx.budget(40, 800))]
     cexprs, cown, cobs = [], [], []
     for ci, case in enumerate(ccases):
         cobs.append(crop_impl(case))
@@ -866,7 +866,7 @@ def rsmeta_correspond(case, obs, v):
 def check_resample(ctx: Ctx):
     r = ctx.rng
     cases = [dict(c) for c in _corpus().get("rs", [])]
-    for _ in range(ctx.budget(110, 1500)):
+    for _ in range(ctx.budget(85, 1500)):
         cases.append(gen_rs_case(r))
     obs_all, exprs, mexprs, failed = [], [], [], {}
     flist = []
@@ -1013,13 +1013,13 @@ def updown_run(case):
 def check_resample_laws(ctx: Ctx):
     r = ctx.rng
     n1 = n2 = 0
-    for case in [dict(c) for c in _corpus().get("lin", [])] + [gen_lin_case(r) for _ in range(ctx.budget(45, 700))]:
+    for case in [dict(c) for c in _corpus().get("lin", [])] + [gen_lin_case(r) for _ in range(ctx.budget(35, 700))]:
         n1 += 1
         ctx.dist("linear/dtype=%s" % case["dtype"])
         ctx.count(("lin", json.dumps(case, sort_keys=True)), nontrivial=case["out"] != [case["shape"][a] for a in case["axes"]])
         for key, what in lin_run(case):
             ctx.violation(key, what, dict(case))
-    for case in [dict(c) for c in _corpus().get("updown", [])] + [gen_updown_case(r) for _ in range(ctx.budget(60, 900))]:
+    for case in [dict(c) for c in _corpus().get("updown", [])] + [gen_updown_case(r) for _ in range(ctx.budget(45, 900))]:
         n2 += 1
         ns = [case["shape"][a] for a in case["axes"]]
         ctx.dist("updown/dtype=%s" % case["dtype"])
